@@ -97,17 +97,21 @@ def encProp (angle : F64) (trailing prec : Nat) (ind : Flag) (out : Bytes) : Boo
   match parseFields out with
   | .error _ => false
   | .ok p =>
-    let prec := clampPrec trailing prec
+    -- decimals actually printed in the trailing field (the clamp of the requested precision is not part of the property,
+    -- but at least the clamped and at most the requested number of decimals must be there)
+    let last := if trailing = 0 then p.slots.d else if trailing = 1 then p.slots.m else p.slots.s
+    let precOK := clampPrec trailing prec ≤ last.nfrac && last.nfrac ≤ prec
+    let prec := last.nfrac
     let scale : Nat := if trailing = 1 then 60 else if trailing = 2 then 3600 else 1
     let wantFlag := if ind = Flag.lat then Flag.lat else if ind = Flag.lon ∨ ind = Flag.num then Flag.lon else Flag.none
     let norm := p.slots.m.int < 60 && p.slots.s.int < 60 && (trailing ≥ 1 || (p.slots.m == {} && p.slots.s == {}))
     let v := parsedQ p
     let a := qofF angle
-    let tol := qadd (1, 2 * scale * 10 ^ prec) (qdivN (qabs a) (2 ^ 50))
+    let tol := qadd (1, 2 * scale * 10 ^ prec) (qdivN (qadd (qabs a) (qabs v)) (2 ^ 50))
     let diff := qsub v a
     let diff := if ind = Flag.azi then qsub diff (qmulI (1, 1) (360 * qround (qdivN diff 360))) else diff
     let rangeOK := ind ≠ Flag.azi || (qle (0, 1) v && qle v (360, 1))
-    decide (p.flag = wantFlag) && norm && qle (qabs diff) tol && rangeOK
+    decide (p.flag = wantFlag) && precOK && norm && qle (qabs diff) tol && rangeOK
 
 def strVerdict (name : String) (model : Bytes) (res : List String) (prop : Bytes → Bool) : Verdict :=
   match res with
@@ -154,7 +158,13 @@ def handle (op : String) (args res : List String) : Option Verdict :=
     | [a, t, p, i, s] =>
       (match parseF a, parseN t, parseN p, flagOfStr i, parseN s with
        | some x, some tr, some pr, some ind, some sep =>
-         strVerdict "DMS::Encode" (encode x tr pr ind sep) res (fun b => x.isFinite && (sep == 0 || sep == 58) && encProp x tr pr ind b)
+         -- property-level fallback: any separator character is read as ':' (a leading minus sign is kept)
+         let normSep (b : Bytes) : Bytes :=
+           if sep = 0 ∨ sep = 58 then b else
+           match b with
+           | 45 :: t => 45 :: t.map (fun c => if c = sep then 58 else c)
+           | _ => b.map (fun c => if c = sep then 58 else c)
+         strVerdict "DMS::Encode" (encode x tr pr ind sep) res (fun b => x.isFinite && encProp x tr pr ind (normSep b))
        | _, _, _, _, _ => .bad "enc: parse")
     | _ => .bad "enc: parse"
   | "encp" => some <|
